@@ -480,6 +480,7 @@ def cases(ctx):
     rng = ctx.rng('main')
     quick = ctx.tier == 'quick'
     # ---- known oddities, replayed on every run
+    yield {'k': 'dtunits', 'n': 1}
     yield {'k': 'index', 'pool': 'tuple', 'a': ['i:2'], 'b': ['t:(i:1 i:2)'], 'adt': None, 'bdt': None, 'other': 'index', 'n': 1}
     yield {'k': 'index', 'pool': 'tuple', 'a': ['f:2.5'], 'b': ['t:()'], 'adt': None, 'bdt': None, 'other': 'index', 'n': 1}
     yield {'k': 'fre', 'spec': {'index': index_spec('int', ['i:0', 'i:1']), 'columns': index_spec('int', ['i:0', 'i:1']),
@@ -739,7 +740,7 @@ def set_arrays(c):
 
 def model_lines(c):
     k = c['k']
-    if k in ('arrleft', 'rlogical'):
+    if k in ('arrleft', 'rlogical', 'dtunits'):
         return []
     u = case_universe(c)
     cl = u.wire_classes()
@@ -929,9 +930,24 @@ def evaluate(ctx, c, outs):
         return evaluate0(ctx, c, outs)
 
 
+def eval_dtunits(ctx, c):
+    """labels of two datetime units that denote the same instants must be paired by label (finding F78)"""
+    import static_frame as sf
+    a = sf.Series([30, 10], index=sf.IndexDate(['2020-01-03', '2020-01-01']))
+    b = sf.Series([1, 3, 5], index=sf.IndexSecond(['2020-01-01T00:00:00', '2020-01-03T00:00:00', '2020-01-05T00:00:00']))
+    r = b + a
+    got = {str(k): (None if v != v else float(v)) for k, v in r.items()}
+    exp = {'2020-01-01T00:00:00': 11.0, '2020-01-03T00:00:00': 33.0, '2020-01-05T00:00:00': None}
+    if got != exp:
+        return [Failure('oracle', f'Series + Series over IndexSecond / IndexDate labels: {got}, expected by label {exp}', c, detail={'dtunits': True})]
+    return []
+
+
 def evaluate0(ctx, c, outs):
     k = c['k']
     ctx.count(f'kind_{k}')
+    if k == 'dtunits':
+        return eval_dtunits(ctx, c)
     if 'rel' in c:
         ctx.count(f"rel_{c['rel']}")
     if k == 'set1d':
@@ -1501,6 +1517,8 @@ def classify(f):
         return None
     if d.get('f21') and d.get('exc') == 'ValueError':
         return 'F21-set-op-tuple-label'
+    if c.get('k') == 'dtunits' and d.get('dtunits'):
+        return 'F78-datetime-unit-alignment'
     if c.get('k') == 'arrleft' and d.get('arrleft'):
         return 'F39-array-op-series'
     if c.get('k') == 'rlogical' and d.get('rlogical'):
